@@ -939,8 +939,15 @@ impl FutWait {
 
 impl Wait for FutWait {
     #[cold]
-    fn wait(&self, _seq: usize, _w_pos: &AtomicUsize, _wc: &AtomicUsize) {
-        panic!("Somehow normal wait got called in futures queue");
+    fn wait(&self, seq: usize, w_pos: &AtomicUsize, wc: &AtomicUsize) {
+        // Reached through the blocking recv()/recv_view() that the futures receivers expose:
+        // there is no task to park here, so wait like the yielding strategy does.
+        loop {
+            if check(seq, w_pos, wc) {
+                return;
+            }
+            yield_now();
+        }
     }
 
     fn notify(&self) {
